@@ -183,10 +183,10 @@ fn front(truth: &mut Truth, lang: &Lang, text: &str, presimplify: bool) -> Resul
         passes::evaluate_const_vars::run(ctx).map_err(|e| ("constvars".to_string(), e))?;
         passes::const_simplify::run(&mut block, ctx).map_err(|e| ("simplify".to_string(), e))?;
     }
-    // as the real formats do (e.g. ecl_06.rs): reject mismatched switch lengths, warn about labels on blocks
+    // as the real formats do (e.g. ecl_06.rs: label masks first, then validation): reject mismatched switch lengths, warn about labels on blocks
+    passes::resolution::compute_diff_label_masks(&mut block, ctx).map_err(|e| ("diff_masks".to_string(), e))?;
     passes::validate_difficulty::run(&block, ctx, &*lang.hooks).map_err(|e| ("validate_difficulty".to_string(), e))?;
     passes::resolution::aliases_to_raw(&mut block, ctx).map_err(|e| ("aliases_to_raw".to_string(), e))?;
-    passes::resolution::compute_diff_label_masks(&mut block, ctx).map_err(|e| ("diff_masks".to_string(), e))?;
     Ok(block)
 }
 
